@@ -2,13 +2,14 @@
 """archive_seed.py <Cxx> <name> <caught_by comma list> <note>  -- copy a verified seed from /tmp/seedout into /verif/seeded/<Cxx>-<name>/"""
 import json, os, shutil, sys, re
 pid, name, caught, note = sys.argv[1:5]
-src = "/tmp/seedout/" + pid
+SEEDOUT = os.environ.get("SEEDOUT", "/tmp/seedout")
+src = SEEDOUT + "/" + pid
 dst = os.path.join(os.path.dirname(os.path.dirname(os.path.abspath(__file__))), "seeded", "%s-%s" % (pid, name))
 os.makedirs(dst, exist_ok=True)
 shutil.copy(os.path.join(src, "patch.diff"), dst)
 shutil.copy(os.path.join(src, "demo.py"), dst)
 meta = json.load(open(os.path.join(src, "meta.json")))
-ver = [l for l in open("/tmp/seedout/verify.log") if l.startswith(pid + " ")]
+ver = [l for l in open(SEEDOUT + "/verify.log") if l.startswith(pid + " ")]
 m = re.search(r"demo_orig=(\d+) demo_changed=(\d+) tests: (.*)", ver[-1]) if ver else None
 meta["confirmed_by_me"] = {
     "demo_on_original_exit": int(m.group(1)) if m else None, "demo_with_change_exit": int(m.group(2)) if m else None,
@@ -18,6 +19,6 @@ meta["confirmed_by_me"] = {
 meta["checks_that_catch_it"] = [c for c in caught.split(",") if c]
 meta["how_checked"] = "VERIF_REPO=<worktree> ./vcheck <id> --tier quick  (exit 1 with VIOLATION lines); also git -C /repo apply patch.diff / vcheck / git -C /repo checkout -- ."
 meta["note"] = note
-meta["base_commit"] = os.popen("git -C /repo rev-parse HEAD").read().strip()
+meta["base_commit"] = os.popen("git -C %s rev-parse HEAD" % os.environ.get("SEEDWT", "/repo")).read().strip()
 json.dump(meta, open(os.path.join(dst, "meta.json"), "w"), indent=1)
 print(dst)
